@@ -14,8 +14,8 @@ CLAIMED = {
 
 CLAIMED.update({
     "C01": ("Coq proof (refinement of the assembly loops to lists of additions + ring semantics, any commutative ring) + extracted-model correspondence (channels A, B) + exact rational oracle",
-            "Theorems in Props/C01.v: for every well-formed index-level network, every species row of the generated right-hand side evaluates (in any commutative ring, for every k and y) to the mass-action sum with multiplicities plus the modifier terms; unreacting species get the literal 0.0; the temperature row is heating minus cooling under the (gamma-1)/kerg/npar wrap. Text level (rhs_text_parses, rhs_text_is_mass_action): the string the generator writes for a species row - '0.0' followed by ' - k[l]*y[IDX_a]*y[IDX_b]' ... - lexed with C's maximal munch and parsed with C precedence is, for EVERY list of terms, the left-nested sum of the products, and its value is the mass-action law; rows holding ODE-modifier terms (rhs_text_with_modifiers_is_law): for ALL factor texts that parse on their own as C, the row parses with each factor as its own expression (parser and lexer frame lemmas) and denotes the law plus the modifier sum. Tied to TemplateLoader._prepare_ode_content (terms, and the exact text of every species row against the model's text) and to the rendered Fex of dense/sparse/cusparse/rosenbrock4 by term-level comparison with the extracted model and by exact evaluation of the emitted text.",
-            "Index-level model (species already resolved to slots by the implementation's own species.index; identity of species is C08/C09); species rows are compared as exact text with the model (the rendered sources and rows holding a user modifier factor - arbitrary text - after parsing sums of products with the harness canonicaliser); stmwrap line breaking and floating-point evaluation order not modelled.",
+            "Theorems in Props/C01.v: for every well-formed index-level network, every species row of the generated right-hand side evaluates (in any commutative ring, for every k and y) to the mass-action sum with multiplicities plus the modifier terms; unreacting species get the literal 0.0; the temperature row is heating minus cooling under the (gamma-1)/kerg/npar wrap. Text level (rhs_text_parses, rhs_text_is_mass_action): the string the generator writes for a species row - '0.0' followed by ' - k[l]*y[IDX_a]*y[IDX_b]' ... - lexed with C's maximal munch and parsed with C precedence is, for EVERY list of terms, the left-nested sum of the products, and its value is the mass-action law; rows holding ODE-modifier terms (rhs_text_with_modifiers_is_law): for ALL factor texts that parse on their own as C, the row parses with each factor as its own expression (parser and lexer frame lemmas) and denotes the law plus the modifier sum. Tied to TemplateLoader._prepare_ode_content (terms, and the exact text of every species row against the model's text) and to the rendered Fex of dense/sparse/cusparse/rosenbrock4 by term-level comparison with the extracted model, by exact evaluation of the emitted text, and by compiling the rendered routines as they stand (CVODE dense/sparse, the cuSPARSE kernels for the host on a batch of two systems, the Odeint functors) and comparing what they compute with the law in rationals. Batched kernels (Model/Batch.v): every system of a batch is visited by exactly one thread exactly once whatever the launch geometry, so the per-system claim is about the loop body alone.",
+            "Index-level model (species already resolved to slots by the implementation's own species.index; identity of species is C08/C09); species rows are compared as exact text with the model (the rendered sources and rows holding a user modifier factor - arbitrary text - after parsing sums of products with the harness canonicaliser); stmwrap line breaking and floating-point evaluation order not modelled; compiled routines are compared at relative 1e-9 of the sum of the magnitudes of the terms; the host run of the CUDA kernels (stand-in header, launches rewritten to calls) says nothing about device execution.",
             "7 C01"),
     "C02": ("Coq proof (formal derivative by linearity+Leibniz over any commutative ring; Coquelicot is_derive over R) + correspondence + dual-number oracle",
             "Theorems in Props/C02.v: every Jacobian entry evaluates to the formal partial derivative of the emitted row (reactions, ODE modifiers with any number of repeated dependencies, thermal terms); omitted entries are identically zero derivatives; over R the formal derivative is Coquelicot's is_derive with rates held fixed; text level (jac_text_is_derivative, jac_thermal_text_is_derivative): the string of an entry, read as C, evaluates to that formal derivative; the wrapped entries of the temperature row parse as the wrapping of the derivative of the unwrapped row; entries holding modifier terms (jac_text_with_modifiers_is_derivative) for all factor texts that parse as C. Tied to ode.jac.rhs/vals (terms and exact text) and to the four rendered Jacobians by term comparison and by exact dual-number differentiation of the emitted right-hand side.",
